@@ -56,6 +56,10 @@ def builder_signature(F, b):
             if e['kind'] == 'loop_enter' and heap_path in e['pre']:
                 sig['heap_source'] = repr(canon.term(e['pre'][heap_path]))
         sig['push_arg'] = repr(canon.term(role(pushes[0]['args'][1])))
+        # the weight component alone (the index of the new node may be kept in a counter or computed from table sizes)
+        pa = pushes[0]['args'][1]
+        if pa[0] == 'agg' and pa[2] and pa[2][0][0] == 'agg' and len(pa[2][0][2]) == 2:
+            sig['push_weight'] = repr(canon.term(role(pa[2][0][2][0])))
         # the counter that names the new node: second component of the pushed key; init and step
         pushed = pushes[0]['args'][1]
         nxt = None
@@ -354,6 +358,8 @@ def run(ctx):
                     ctx.unresolved('R4', what, eb[0].defpath, 'not recognised in %s' % ('encoder' if a is None else 'decoder'), key=k)
                 elif a == b and (part != 'next_step' or a == 1) and (part != 'bit0_child' or a == 'POP0'):
                     ctx.ok('R4', what, eb[0].defpath, 'identical in both builders: %s' % (str(a)[:140]), key=k)
+                elif part == 'push_arg' and se.get('push_weight') is not None and se.get('push_weight') == sd.get('push_weight'):
+                    ctx.unresolved('R4', what, eb[0].defpath, 'the merged weight is the same in both builders, but the index given to the new node is spelled differently (a counter in one, an expression over table sizes in the other): not compared', key=k)
                 else:
                     ctx.bad('R4', what, eb[0].defpath, 'encoder: %s ; decoder: %s - the two trees no longer describe the same code' % (str(a)[:200], str(b)[:200]), key=k, loc=rules.loc(db[0]))
     c09.check_huffman(ctx, F)
